@@ -102,7 +102,7 @@ static void rec_query(void) {
 static void rec_dec(const char *fn, const unsigned char *in, size_t n) {
     char *d = exact(in, n);
     vh_where = fn;
-    vh_watchdog(2);
+    vh_watchdog(6);
     size_t dn = !strcmp(fn, "urldec") ? qurl_decode(d) : !strcmp(fn, "hexdec") ? qhex_decode(d) : qbase64_decode(d);
     alarm(0);
     vh_bprintf(&b, "{\"fn\":\"%s\"", fn);
@@ -113,7 +113,7 @@ static void rec_dec(const char *fn, const unsigned char *in, size_t n) {
 }
 static void rec_parse(const unsigned char *in, size_t n) {
     char *qs = exact(in, n);
-    vh_where = "parse"; vh_watchdog(2);
+    vh_where = "parse"; vh_watchdog(6);
     int count = 0;
     qlisttbl_t *t = qparse_queries(NULL, qs, '=', '&', &count);
     alarm(0);
